@@ -74,6 +74,7 @@ m = {
   {"name": "portable", "path": "crates/engines/src/bin/portable.rs", "serves_properties": ["C16"], "kind_free_text": "E1 exhaustive sweep over portable scalar values and pairs vs native arithmetic"},
   {"name": "io_explore", "path": "crates/ioeng/src/bin/io_explore.rs", "serves_properties": ["C07", "C08", "C09", "C10"], "kind_free_text": "E3 stateless choice-sequence DFS with deviation bounding over pipe answers / Pending / faults / poll order, real flatty-io code"},
   {"name": "io_loom", "path": "crates/ioeng/src/bin/io_loom.rs", "serves_properties": ["C07"], "kind_free_text": "E4 loom exploration of the real blocking sender/receiver threads"},
+  {"name": "probes", "path": "crates/probes/src/main.rs", "serves_properties": ["C01"], "kind_free_text": "dedicated enumerated probes compiled at opt-level 0 (generic flatty code instantiated unoptimised): zero-sized elements with an announced length of 2^32-1 / 2^64-1 under a wall limit, u128 length types"},
   {"name": "layout", "path": "crates/engines/src/bin/layout.rs", "serves_properties": ["C04"], "kind_free_text": "E1 exhaustive product sweep over shapes x lengths x values"},
  ],
  "checks": checks,
